@@ -438,6 +438,13 @@ def stepLine (s : St) (toks : List String) : St × List String :=
       else if mk == 0 then (opWatch s wd.toNat path false, ["err ENOENT"])
       else (opWatch s wd.toNat path true, ["ok"])
     | _, _, _ => (s, ["bad-op"])
+  -- the directory at `path` is moved aside and a new one created: nothing a10 knows
+  -- changes (the old descriptor keeps its path in the table; the next `watch` of
+  -- the path is told a new descriptor by the kernel)
+  | ["inotify", "replace", path] =>
+    match unhex path with
+    | some p => if p.getLast? == some 47 then (s, ["bad-op"]) else (s, ["ok"])
+    | none => (s, ["bad-op"])
   | ["inotify", "events"] =>
     match opEvents s with
     | some s' => (s', ["ok"])
